@@ -197,9 +197,10 @@ fn lit_step_ref<const L: usize>(d: &[u8; L], mut i: usize, mut depth: i32) -> (O
         else { return (Some(Some(c)), i, depth); }
     }
 }
-fn lit_step<const L: usize>(continuation: bool) {
+fn lit_step<const L: usize>(continuation: bool) { lit_step_at::<L>(continuation, None) }
+fn lit_step_at<const L: usize>(continuation: bool, fixed_pos: Option<usize>) {
     let buf: [u8; L] = kani::any();
-    let pos: usize = kani::any();
+    let pos: usize = match fixed_pos { Some(p) => p, None => kani::any() };
     let nested: i32 = kani::any();
     kani::assume(pos <= L && nested >= 0 && nested < 1000);
     // next_lexeme calls itself after a line continuation (backslash + end-of-line). The two cases are split so that the
@@ -239,3 +240,6 @@ fn strlex_lit_step_cont_l4() { lit_step::<4>(true) }
 #[kani::proof]
 #[kani::stub(std::fmt::format, nofmt)]
 fn strlex_lit_step_cont_l3() { lit_step::<3>(true) }
+#[kani::proof]
+#[kani::stub(std::fmt::format, nofmt)]
+fn strlex_lit_step_cont0_l3() { lit_step_at::<3>(true, Some(0)) }
